@@ -114,6 +114,30 @@ Example C16_example_string_newline :           (* a raw newline in the literal b
 b""") 0 = Tok STRING 0 5 (PStr [97; 92; 110; 98]).
 Proof. vm_compute. reflexivity. Qed.
 
+Example C16_example_string_bom :               (* EF BB BF inside a literal becomes the escape backslash ufeff; length counts the 3 bytes *)
+  scan_token_at 8 [34; 97; 239; 187; 191; 98; 34] 0
+  = Tok STRING 0 7 (PStr (b "a\ufeffb")).
+Proof. vm_compute. reflexivity. Qed.
+
+Example C16_example_raw_bom :
+  scan_token_at 6 [96; 239; 187; 191; 96] 0 = Tok STRING 0 5 (PStr (b "\ufeff")).
+Proof. vm_compute. reflexivity. Qed.
+
+Example C16_example_bom_outside_literal :      (* a stray 0xEF hits the default panic(b) *)
+  scan_token_at 4 [239; 187; 191] 0 = Diag bad_byte_msg.
+Proof. vm_compute. reflexivity. Qed.
+
+(** the defect of the intermediate commit 0061363 (isStringAt ranged over runes), repaired by
+    2ecf680: the rune-wise test took any three bytes starting with EF for a byte order mark *)
+Theorem C16_bom_test_runewise_old_refuted :
+  exists buf j, bom_at_runewise_old buf j = true /\ is_string_at buf j bom = false.
+Proof. exact bom_test_runewise_old_refuted. Qed.
+Print Assumptions C16_bom_test_runewise_old_refuted.
+
+Example C16_example_ef_character_kept :        (* U+FF71 (EF BD B1) in a literal stays as it is *)
+  scan_token_at 6 [34; 239; 189; 177; 34] 0 = Tok STRING 0 5 (PStr [239; 189; 177]).
+Proof. vm_compute. reflexivity. Qed.
+
 Example C16_example_sinterp_token :            (* begins after the dollar sign *)
   scan_token_at 7 (b "$""a{x}""") 0 = Tok SINTERP 1 6 (PStr (b "a{x}")).
 Proof. vm_compute. reflexivity. Qed.
